@@ -924,6 +924,8 @@ class NtText(Suite):
                 else:
                     parts.append(rand_unicode(rng, rng.choice([1, 2, 3])))
             return {"mode": "unquote", "s": "".join(parts)}
+        if r < 0.80:
+            return self.gen_long_doc(rng)
         # documents: written rows, then damaged
         rows = []
         for _ in range(rng.choice([1, 1, 2, 3])):
@@ -949,11 +951,39 @@ class NtText(Suite):
                     doc = doc[:pos] + doc[pos + 1:]
                 else:
                     doc = doc[:pos] + ch + doc[pos + 1:]
-        return {"mode": "doc", "s": doc}
+        return {"mode": "doc", "s": doc, "bin": rng.random() < 0.3}
+
+    def gen_long_doc(self, rng):
+        """documents longer than the reader's 2048-character buffer: rows padded with multi-byte characters, line ends
+        LF / CR / CRLF placed on and around the multiples of 2048, blank and comment lines, an unterminated last line"""
+        doc = ""
+        nrows = rng.choice([2, 3, 4, 6])
+        for _ in range(nrows):
+            t = self.gen_triple(rng)
+            if t[2][0] != "L" or rng.random() < 0.3:
+                t = [t[0], t[1], ["L", "x", None, None]]
+            pad = "".join(rng.choice(PAD_CHARS + ["x"]) * rng.randrange(1, 300) for _ in range(rng.choice([1, 2, 3])))
+            t = [t[0], t[1], ["L", t[2][1] + pad, t[2][2], t[2][3]]]
+            try:
+                row = _ntser._nt_row(tuple(to_term_nt(x) for x in t))[:-1]
+            except Exception:  # noqa: BLE001
+                row = '<http://e/a> <http://e/p> "' + pad + '" .'
+            eol = rng.choice(["\n", "\n", "\r", "\r\n", "\r\n"])
+            if rng.random() < 0.6:
+                # stretch the row with a trailing comment so that its line end sits at a multiple of 2048 (+-1)
+                want = ((len(doc) + len(row)) // 2048 + 1) * 2048 + rng.choice([-2, -1, -1, 0, 0, 1]) - len(doc) - len(row)
+                if want > 2:
+                    row += " #" + "c" * (want - 2)
+            doc += row + eol
+            if rng.random() < 0.2:
+                doc += rng.choice(["", "\n", "  \r\n", "# comment\n", "\u00a0", "\r"])
+        if rng.random() < 0.3:
+            doc = doc.rstrip("\r\n") + rng.choice(["", " ", "\u00a0", "\t# c"])
+        return {"mode": "doc", "s": doc, "bin": rng.random() < 0.5}
 
     # ---- implementation
     @staticmethod
-    def parse(text):
+    def parse(text, binary=False):
         out = []
 
         class Sink:
@@ -962,7 +992,10 @@ class NtText(Suite):
 
         parser = _nt.W3CNTriplesParser(Sink())
         try:
-            parser.parsestring(text)
+            if binary:     # a byte stream: goes through the UTF-8 stream reader, 2048 bytes at a time
+                parser.parse(io_mod.BytesIO(text.encode("utf-8")))
+            else:          # StringIO: 2048 characters at a time
+                parser.parsestring(text)
         except CaseTimeout:
             raise
         except Exception:  # noqa: BLE001
@@ -987,14 +1020,14 @@ class NtText(Suite):
             except Exception:  # noqa: BLE001
                 return {"u": None}
         if case["mode"] == "doc":
-            return {"d": self.parse(case["s"])}
+            return {"d": self.parse(case["s"], case.get("bin", False))}
         try:
             text = _ntser._nt_row(tuple(to_term_nt(x) for x in case["t"]))
         except CaseTimeout:
             raise
         except Exception:  # noqa: BLE001
             return {"text": None, "back": None}
-        return {"text": text, "back": self.parse(text)}
+        return {"text": text, "back": self.parse(text, case.get("bin", False))}
 
     def coq_case(self, case):
         if case["mode"] == "unquote":
@@ -1025,6 +1058,8 @@ class NtText(Suite):
                 f["lex_has_escape_char"] = int(any(c in case["t"][2][1] for c in '\\"\n\r'))
         elif case["mode"] == "doc":
             f["doc_accepted"] = int(obs.get("d") is not None)
+            f["doc_longer_than_buffer"] = int(len(case["s"]) > 2048)
+            f["doc_binary_source"] = int(bool(case.get("bin")))
         else:
             f["unquote_raises"] = int(obs.get("u") is None)
         return f
